@@ -105,7 +105,9 @@ unsigned int XMLSynchronizedStringPool::getId(const XMLCh* const toFind) const
     // make sure we return a truly unique id
     unsigned int constCount = fConstPool->getStringCount();
     XMLMutexLock lockInit(&const_cast<XMLSynchronizedStringPool*>(this)->fMutex);
-    return XMLStringPool::getId(toFind)+constCount;
+    retVal = XMLStringPool::getId(toFind);
+    // zero means "not found" and must stay zero: it is never a legal id
+    return retVal ? retVal+constCount : 0;
 }
 
 
